@@ -139,6 +139,10 @@ package keeper
 //@   by share_mono_j: ens:rules_list, req
 //@   ensures ledger:   err == nil ==> (forall d:Str :: bal(MOD, d) == old(bal(MOD, d)) - amt(collected, d) && bal(COLLECTOR, d) == old(bal(COLLECTOR, d)) + amt(collected, d))
 //@   ensures ledger_frame: forall a:Bytes :: forall d:Str :: a != MOD && a != COLLECTOR ==> bal(a, d) == old(bal(a, d))
+// whatever happens (error returns included) the rule table stays well formed and only this pool's record changes
+//@   ensures keeps_rules: rulesWF && rulesOK
+//@   ensures pools_frame: forall p:Str :: p != pool.Id ==> has(pools, p) == old(has(pools, p)) && POOL(p) == old(POOL(p))
+//@   ensures pool_kept:  err != nil ==> pools == old(pools)
 // it cannot fail when the height has not gone back, the pool has a rule, every budget covers what is released now and
 // the escrow account holds it
 //@   ensures succeeds: old(height >= pool.LastHeightDistrRewards && has(ruleF, pool.Id, ufstr("some_reward", pool.Id))
@@ -383,6 +387,7 @@ package keeper
 //@                         && amt(refundTotal, d) == pool.Rules[ridx(pool.Rules, d)].RemainingReward
 //@   invariant #1 todo: forall d:Str :: inRules(pool.Rules, d) && ridx(pool.Rules, d) > rangeindex ==>
 //@                         has(ruleF, pool.Id, d) && RULE(pool.Id, d) == pool.Rules[ridx(pool.Rules, d)] && amt(refundTotal, d) == 0
+//@   invariant #1 rok:  rulesWF && rulesOK
 //@   invariant #1 rest: (forall d:Str :: !inRules(pool.Rules, d) ==> !has(ruleF, pool.Id, d) && amt(refundTotal, d) == 0)
 //@                      && (forall p:Str :: forall d:Str :: p != pool.Id ==> has(ruleF, p, d) == old(has(ruleF, p, d)) && RULE(p, d) == old(RULE(p, d)))
 //@                      && (forall d:Str :: amt(refundTotal, d) >= 0)
@@ -409,4 +414,11 @@ package keeper
 //@   by escrow: ens:ledger, ens:pool_record, ens:zeroed, ens:rule_frame, lemma, req
 //@   ensures queue:     old(activeInv) && err == nil ==> activeInv && (forall h:Int :: !has(active, h, pool.Id))
 //@   by queue: ens:dequeued, ens:pool_record, req
+// the same for every return path (the end blocker ignores the error): nothing of the module's bookkeeping is left broken
+//@   ensures keeps_rules: rulesWF && rulesOK
+//@   ensures pools_frame: forall p:Str :: p != pool.Id ==> has(pools, p) == old(has(pools, p)) && POOL(p) == old(POOL(p))
+//@   ensures pool_kept:  has(pools, pool.Id) && POOL(pool.Id).Id == pool.Id && POOL(pool.Id).Creator == pool.Creator && poolOK(POOL(pool.Id))
+//@                        && (POOL(pool.Id).EndHeight == pool.EndHeight || POOL(pool.Id).EndHeight == height)
+//@   ensures queue_all:  old(activeInv) ==> activeInv && (forall h:Int :: !has(active, h, pool.Id))
+//@   by queue_all: ens:dequeued, ens:pools_frame, ens:pool_kept, req
 //@ end
